@@ -30,6 +30,7 @@ pub struct SchedCase {
     pub spurious: u8,
 }
 
+#[derive(Default)]
 pub struct Payload {
     pub id: u64,
     pub check: u64,
@@ -206,7 +207,9 @@ pub fn run_schedule(programs: &[Vec<POp>], schedule: &[usize], step_limit: usize
 
 pub fn run_schedule_ex(programs: &[Vec<POp>], schedule: &[usize], spurious: u8, step_limit: usize, w: Duration) -> RunResult {
     let n = programs.len();
-    let holder: Arc<SingletonHolder<Payload>> = Arc::new(SingletonHolder::new());
+    // both public ways of making an empty holder (`new()` and `Default`), chosen by the programs' shape
+    let ops_total: usize = programs.iter().map(|p| p.len()).sum();
+    let holder: Arc<SingletonHolder<Payload>> = Arc::new(if ops_total % 2 == 1 { SingletonHolder::default() } else { SingletonHolder::new() });
     let shared = Arc::new(Shared {
         m: Mutex::new(Ctl {
             status: vec![Status::NotStarted; n],
